@@ -34,11 +34,13 @@ pub fn rand_pos(r: &mut Rng) -> f64 {
     let m = 1.0 + r.unit();
     m * 2f64.powi(r.range(-8, 8) as i32)
 }
-const AWKWARD: [&str; 8] = ["x", "y z", "\"q\"", "back\\slash", "", "fx_eurusd", "v0", "tab\tname"];
+// (names are arbitrary text: quotes, backslashes, control characters, accented and CJK letters, and characters beyond the
+//  basic multilingual plane - which a JSON writer that escapes to ASCII must write as a surrogate PAIR)
+const AWKWARD: [&str; 14] = ["x", "y z", "\"q\"", "back\\slash", "", "fx_eurusd", "v0", "tab\tname", "\u{3c3}", "\u{5229}\u{7387}", "\u{1d465}", "rate\u{1f4c8}", "e\u{301}", "\u{10ffff}z"];
 fn rand_vars(r: &mut Rng, n: usize) -> Vec<String> {
     let mut v: Vec<String> = vec![];
     while v.len() < n {
-        let s = if r.chance(0.4) { AWKWARD[r.below(8) as usize].to_string() } else { format!("v{}", r.below(40)) };
+        let s = if r.chance(0.4) { AWKWARD[r.below(14) as usize].to_string() } else { format!("v{}", r.below(40)) };
         if !v.contains(&s) {
             v.push(s);
         }
@@ -221,7 +223,7 @@ fn rand_curve(r: &mut Rng, i: usize) -> CurveH {
     // every day-count convention and every modifier (they are stored fields of a curve)
     let conv = rateslib::verif::calendar_py::convention_new((r.below(11)) as u8).unwrap();
     let modi = rateslib::verif::calendar_py::modifier_new((r.below(5)) as u8).unwrap();
-    CurveH::new(nodes, rules[i % 6], ad, "crv", conv, modi, cal, if r.coin() { Some(rand_pos(r)) } else { None }).unwrap()
+    CurveH::new(nodes, rules[i % 6], ad, ["crv", "usd_ois", "\u{1d465}crv", "c \"1\""][i % 4], conv, modi, cal, if r.coin() { Some(rand_pos(r)) } else { None }).unwrap()
 }
 fn rand_knots(r: &mut Rng, k: usize) -> Vec<f64> {
     let mut t: Vec<f64> = (0..(2 * k + r.below(5) as usize)).map(|_| rand_bits(r)).collect();
